@@ -180,6 +180,30 @@ def floor_half_axioms(atoms):
     return out
 
 
+def minmax_axioms(atoms):
+    """m = min(x, y, ...) / max(...): m <= every argument (>= for max) and m equals one of them -> list of alternatives,
+    each a list of constraints (one alternative per choice of the attained argument, for every min/max atom)"""
+    alts = [[]]
+    for a in atoms:
+        if a[0] == 'app' and a[1] in ('min', 'max', 'minimum', 'maximum') and len(a[2]) >= 2 and all(isinstance(x, Poly) for x in a[2]):
+            m = Lin({a: 1})
+            args = [linearise(x) for x in a[2]]
+            lo = a[1] in ('min', 'minimum')
+            base = [le(m, x) if lo else le(x, m) for x in args]
+            choices = [base + ([le(x, m)] if lo else [le(m, x)]) for x in args]
+            alts = [pre + c for pre in alts for c in choices]
+    return alts
+
+
+def satisfiable(cons, atoms=()):
+    """feasible under the axioms of the floor-halves and min/max atoms that occur"""
+    atoms = set(atoms)
+    for l in cons:
+        atoms |= set(l.coefs)
+    base = floor_half_axioms(atoms)
+    return any(feasible(list(cons) + base + extra) for extra in minmax_axioms(atoms))
+
+
 def evaluate(p, env):
     """value of a Poly under an integer assignment of its free atoms (floor-halves are computed)"""
     total = Fraction(0)
@@ -201,6 +225,9 @@ def _atom_value(a, env):
         x, y = evaluate(a[2][0], env), evaluate(a[2][1], env)
         q = x / y
         return q.numerator // q.denominator
+    if a[0] == 'app' and a[1] in ('min', 'max', 'minimum', 'maximum') and all(isinstance(x, Poly) for x in a[2]):
+        vals = [evaluate(x, env) for x in a[2]]
+        return min(vals) if a[1] in ('min', 'minimum') else max(vals)
     raise NotLinear(f'no value for {a!r}')
 
 
@@ -211,7 +238,7 @@ def free_atoms(polys):
     def walk(p):
         for m, _ in p.terms:
             for a, _ in m:
-                if a[0] == 'app' and a[1] in ('floor', 'floordiv'):
+                if a[0] == 'app' and a[1] in ('floor', 'floordiv', 'min', 'max', 'minimum', 'maximum'):
                     for x in a[2]:
                         if isinstance(x, Poly):
                             walk(x)
@@ -248,3 +275,46 @@ def witness(conds, goal_poly, goal_kind, ranges, limit=200000):
             if (goal_kind == 'ge0' and g < 0) or (goal_kind == 'le0' and g > 0):
                 return env
     return None
+
+
+def holds(c, env):
+    """truth of a boolean term (and / or / not over comparisons of integer terms) under an integer assignment"""
+    if isinstance(c, Const):
+        return bool(c.value)
+    a = c.single_atom() if isinstance(c, Poly) else None
+    if a is None:
+        return evaluate(c, env) != 0
+    if a[0] == 'app' and a[1] in ('and', 'or'):
+        vals = [holds(x, env) for x in a[2]]
+        return all(vals) if a[1] == 'and' else any(vals)
+    if a[0] == 'app' and a[1] == 'not':
+        return not holds(a[2][0], env)
+    if a[0] == 'app' and a[1] in ('lt', 'le', 'eq', 'ne') and len(a[2]) == 2:
+        x, y = evaluate(a[2][0], env), evaluate(a[2][1], env)
+        return {'lt': x < y, 'le': x <= y, 'eq': x == y, 'ne': x != y}[a[1]]
+    return evaluate(c, env) != 0
+
+
+def disjuncts(c, pol):
+    """a path condition as a list of alternatives, each a list of (comparison, polarity) literals (DNF of and/or/not)"""
+    a = c.single_atom() if isinstance(c, Poly) else None
+    if a is not None and a[0] == 'app' and a[1] == 'not':
+        return disjuncts(a[2][0], not pol)
+    if a is not None and a[0] == 'app' and a[1] in ('and', 'or'):
+        conj = (a[1] == 'and') == bool(pol)
+        parts = [disjuncts(x, pol) for x in a[2]]
+        if conj:
+            out = [[]]
+            for alts in parts:
+                out = [x + y for x in out for y in alts]
+            return out
+        return [alt for alts in parts for alt in alts]
+    return [[(c, pol)]]
+
+
+def conj_constraints(lits):
+    """constraints of a conjunction of comparison literals; `!=` splits -> list of alternatives (each a list of Lin)"""
+    alts = [[]]
+    for c, pol in lits:
+        alts = [x + y for x in alts for y in from_condition(c, pol)]
+    return alts
